@@ -479,7 +479,8 @@ class NormalScript:
         return nz
 
 
-def run_ma_cont(zoo, alg, groups, *, training, single=False, variant=""):
+def run_ma_cont(zoo, alg, groups, *, training, single=False, variant="", act="Tanh"):
+    """act: output activation of the actors' heads; "Tanh" (default) and "Softsign" both map onto (-1, 1)"""
     from agilerl.algorithms.maddpg import MADDPG
     from agilerl.algorithms.matd3 import MATD3
 
@@ -489,16 +490,17 @@ def run_ma_cont(zoo, alg, groups, *, training, single=False, variant=""):
 
     def build():
         ag = cls([spaces.Box(-1, 1, (3,), np.float32), spaces.Box(-1, 1, (2,), np.float32)],
-                 [space_of(g) for g in groups], AGENT_IDS, net_config=net_config(), O_U_noise=False, vect_noise_dim=B)
+                 [space_of(g) for g in groups], AGENT_IDS, net_config=(net_config() if act == "Tanh" else net_config(output_activation=act)),
+                 O_U_noise=False, vect_noise_dim=B)
         ag._stubs = []
         for ac in ag.actors:
-            assert ac.output_activation == "Tanh", ac.output_activation
+            assert ac.output_activation == act, ac.output_activation
             st = Stub()
             ac.head_net.forward = st
             ag._stubs.append(st)
         return ag
 
-    ag = zoo.get((alg, "cont", key, B), build)
+    ag = zoo.get((alg, "cont", key, B, act), build)
     for st, g in zip(ag._stubs, groups):
         st.t = torch.tensor([[v / SC for v in r["x"]] for r in g["rows"]], dtype=torch.float32)
     script = NormalScript([torch.tensor([[v / SC for v in r["noise"]] for r in g["rows"]], dtype=torch.float32)
@@ -566,6 +568,44 @@ def run_ippo(zoo, groups, *, training, mask_form="list", variant=""):
     return trace("IPPO", f"training={training}", variant or f"mask-{mask_form}", "vector", groups, evs)
 
 
+def run_ippo_cont(zoo, groups, *, training, variant="clip"):
+    """IPPO with Box action spaces: a homogeneous pair (agent_0, agent_1) with one pair of bounds and a third agent with other
+    bounds (and another dimension); groups = [g(agent_0), g(agent_1), g(other_0)], mode "none" (un-squashed Gaussian heads)."""
+    from agilerl.algorithms.ippo import IPPO
+
+    key = tuple((tuple(g["lo"]), tuple(g["hi"])) for g in groups)
+    B = len(groups[0]["rows"])
+
+    def build():
+        ag = IPPO([spaces.Box(-1, 1, (3,), np.float32)] * 2 + [spaces.Box(-1, 1, (2,), np.float32)],
+                  [space_of(g) for g in groups], IPPO_IDS, net_config=net_config())
+        ag._stubs = []
+        for ac in ag.actors:
+            st = Stub()
+            ac.head_net.wrapped.forward = st
+            ag._stubs.append(st)
+        assert len(ag._stubs) == 2, "expected agent_0/agent_1 to share an actor"
+        return ag
+
+    ag = zoo.get(("IPPO", "cont", key), build)
+    ag.set_training_mode(training)
+    mu = lambda g: torch.tensor([[v / SC for v in r["x"]] for r in g["rows"]], dtype=torch.float32)
+    ag._stubs[0].t = torch.cat([mu(groups[0]), mu(groups[1])], dim=0)
+    ag._stubs[1].t = mu(groups[2])
+    for ac in ag.actors:                       # a tiny standard deviation: the sampled action is the scripted mean (up to 1e-6)
+        ac.head_net.log_std.data.fill_(-16.0)
+    obs = {"agent_0": np.zeros((B, 3), np.float32), "agent_1": np.zeros((B, 3), np.float32), "other_0": np.zeros((B, 2), np.float32)}
+    evs = []
+    try:
+        torch.manual_seed(zoo.seed + B)
+        act = ag.get_action(obs)[0]
+        for aid, g in zip(IPPO_IDS, groups):
+            evs.append(project(g, act[aid]))
+    except Exception as ex:
+        evs = [project(g, None, _exc(ex)) for g in groups]
+    return trace("IPPO", f"training={training}", variant, "vector", groups, evs)
+
+
 # =================================================================================== grid handling
 class Grid:
     """TLC's dumped cases, indexed by what they can be replayed on."""
@@ -626,9 +666,12 @@ def rerun(cfg, seed=0):
         if variant == "ou-noise":
             return run_ddpg_ou(zoo, alg, g, seed=cfg.get("seed", seed))
         return run_ddpg(zoo, alg, g, training=training)
+    if alg == "IPPO" and g["kind"] == "cont":
+        return run_ippo_cont(zoo, groups, training=training, variant=variant or "clip")
     if alg in ("MADDPG", "MATD3"):
         if g["kind"] == "cont":
-            return run_ma_cont(zoo, alg, groups, training=training, single=single, variant=variant)
+            return run_ma_cont(zoo, alg, groups, training=training, single=single, variant=variant,
+                               act=("Softsign" if variant.endswith("+softsign") else "Tanh"))
         return run_ma_disc(zoo, alg, groups, training=training, single=single, variant=variant,
                            with_mask=cfg.get("masked", True))
     if alg == "IPPO":
